@@ -88,6 +88,26 @@ def run(ctx, rep):
                             dict(site=f"{pen.cls_name()}.alpha_max", kind="not-critical"), input=inp, impl_output=float(r),
                             oracle=dict(violation_at_zero=v, factor=fac))
                 break
+    # ---- K: the group-lasso helper, on arbitrary (non-contiguous, permuted) group layouts
+    from skglm.utils.data import _alpha_max_group_lasso, grp_converter
+    for _ in range(ctx.n(60, 600)):
+        n, p = rng.randrange(4, 12), rng.randrange(2, 9)
+        X = gen_matrix(rng, n, p, "gauss")
+        y = np.array([rng.gauss(0, 1) for _ in range(n)])
+        groups, gp, gi = group_layout(rng, p)
+        wg = np.array([rng.choice([0.5, 1.0, 2.0]) for _ in groups])
+        r = call(_alpha_max_group_lasso, X, y, gi, gp, wg)
+        want = max(np.linalg.norm(X[:, g].T @ y) / (n * wg[k]) for k, g in enumerate(groups))
+        rep.count("alpha_max:group-helper", False, ("gh", hash(X.tobytes()), str(groups)))
+        if isinstance(r, str) or abs(r - want) > 1e-9 * (1 + want):
+            rep.violate("_alpha_max_group_lasso is not max_g ||X_g^T y|| / (n weights_g) for the groups as given",
+                        dict(site="_alpha_max_group_lasso", kind="not-critical"),
+                        input=dict(X=X.tolist(), y=y.tolist(), groups=groups, weights=wg.tolist()), impl_output=str(r),
+                        oracle=dict(value=float(want)))
+        gi2, gp2 = call(grp_converter, [list(map(int, g)) for g in groups], p)
+        if not (np.array_equal(gi2, gi) and np.array_equal(gp2, gp)):
+            rep.violate("grp_converter does not stack the given index lists", dict(site="grp_converter", kind="layout"),
+                        input=dict(groups=groups), impl_output=[np.asarray(gi2).tolist(), np.asarray(gp2).tolist()])
     # ---- S: fits around alpha_max
     for _ in range(ctx.n(60, 600)):
         solver = rng.choice(["AndersonCD", "AndersonCD", "ProxNewton", "GroupBCD", "MultiTaskBCD"])
@@ -133,6 +153,13 @@ def run(ctx, rep):
             w0, b0 = null_model(df, X, np.ones(n), y, fi)
             g0 = X.T @ (b0 - y) / n
             amax = max(np.linalg.norm(g0[g]) / wgs[k] for k, g in enumerate(groups))
+            if not fi:      # the library's helper (no intercept) must give the same critical value
+                a_lib = call(_alpha_max_group_lasso, X, y, gi, gp, wgs)
+                if isinstance(a_lib, str) or abs(a_lib - amax) > 1e-9 * (1 + amax):
+                    rep.violate("_alpha_max_group_lasso differs from the critical strength of the group problem",
+                                dict(site="_alpha_max_group_lasso", kind="not-critical"),
+                                input=dict(X=X.tolist(), y=y.tolist(), groups=groups, weights=wgs.tolist()),
+                                impl_output=str(a_lib), oracle=dict(value=float(amax)))
             for fac in (1.05, 0.9):
                 case = bbox.BBCase(solver, "group", df, Blk("wgl2", amax * fac), X, y,
                                    dict(tol=1e-9, fit_intercept=fi, max_iter=200, max_epochs=2000), groups=groups, wgs=wgs)
